@@ -239,6 +239,59 @@ Proof.
     rewrite Nat.eqb_refl. simpl. rewrite (He 0). simpl. reflexivity.
   - rewrite cands_sync_all_empty by auto. reflexivity.
 Qed.
+
+(* ---- nodes without dependencies (the roots of the graph): where findOptimalPool puts them ---- *)
+Definition noasync (p : list nat) : bool := forallb (fun x => negb (isasync x)) p.
+Lemma loop_inner_nil : forall l, loop_inner [] l = if forallb (fun x => negb (isasync x)) l then 2 else 1.
+Proof. induction l as [|x r IH]; simpl; auto. destruct (isasync x); simpl; auto. Qed.
+Lemma forallb_rev {A} (f : A -> bool) l : forallb f (rev l) = forallb f l.
+Proof.
+  destruct (forallb f l) eqn:E.
+  - apply forallb_forall. intros x Hx. apply in_rev in Hx. rewrite forallb_forall in E. auto.
+  - destruct (forallb f (rev l)) eqn:E2; auto. rewrite forallb_forall in E2. assert (forallb f l = true); [|congruence].
+    apply forallb_forall. intros x Hx. apply E2. apply -> in_rev. exact Hx.
+Qed.
+Lemma pool_loop_nozero pools : forall cs, (forall x, In x cs -> x <> 0) -> pool_loop true [] pools cs = None.
+Proof.
+  induction cs as [|pi r IH]; intros H; simpl; auto. rewrite loop_inner_nil.
+  assert (Hpi : pi <> 0) by (apply H; left; auto). apply Nat.eqb_neq in Hpi.
+  destruct (forallb _ _); [rewrite Hpi|]; apply IH; intros x Hx; apply H; right; auto.
+Qed.
+Lemma cands_nil_ds asyncn : forall pools pprov i acc, exists rest, cands asyncn [] pools pprov i 0 acc = (0, acc ++ rest).
+Proof.
+  induction pools as [|p ps IH]; intros pprov i acc; simpl; [exists []; rewrite app_nil_r; auto|].
+  destruct pprov as [|v vs]; [exists []; rewrite app_nil_r; auto|].
+  destruct (negb asyncn && isnil p); [apply IH|]. unfold cntp. simpl.
+  destruct (IH vs (S i) (acc ++ [i])) as (rest & E). exists (i :: rest). rewrite E, <- app_assoc. reflexivity.
+Qed.
+Lemma first_empty_complete : forall pools i k, k < length pools -> nth k pools [] = [] -> exists j, first_empty pools i = Some j.
+Proof.
+  induction pools as [|p r IH]; intros i k Hk He; [simpl in Hk; lia|]. simpl. destruct (isnil p) eqn:E; [eauto|].
+  destruct k; [simpl in He; subst; discriminate|]. simpl in *. apply (IH (S i) k); auto. lia.
+Qed.
+
+Theorem find_pool_async_root n pools pprov : isasync n = true -> deps n = [] -> length pprov = length pools -> 0 < length pools ->
+  (noasync (nth 0 pools []) = true -> find_pool n pools pprov = 0) /\
+  (noasync (nth 0 pools []) = false -> forall j, first_empty pools 0 = Some j -> find_pool n pools pprov = j).
+Proof.
+  intros Ha Hd HL Hpos. unfold find_pool. rewrite Ha, Hd.
+  rewrite (cands_full_acc [] 0 pools pprov 0 [] HL) by (intros v _; reflexivity). simpl app.
+  destruct pools as [|p0 ps]; [simpl in Hpos; lia|]. cbn [length seq]. cbn [Nat.eqb length].
+  cbn [pool_loop negb]. rewrite loop_inner_nil, forallb_rev. cbn [nth]. fold (noasync p0).
+  split; intros Hn; rewrite Hn.
+  - reflexivity.
+  - intros j Hj. rewrite pool_loop_nozero by (intros x Hx; apply in_seq in Hx; lia). rewrite Hj. reflexivity.
+Qed.
+
+Theorem find_pool_sync_root n pools pprov : isasync n = false -> deps n = [] -> length pprov = length pools ->
+  nth 0 pools [] <> [] -> find_pool n pools pprov = 0.
+Proof.
+  intros Ha Hd HL H0. unfold find_pool. rewrite Ha, Hd.
+  destruct pools as [|p0 ps]; [simpl in H0; congruence|]. destruct pprov as [|v0 vs]; [discriminate|].
+  simpl in H0. cbn [cands]. assert (E : isnil p0 = false) by (destruct p0; [congruence|reflexivity]). rewrite E. cbn [negb andb].
+  unfold cntp at 1 2. cbn [filter length Nat.ltb Nat.leb Nat.eqb].
+  destruct (cands_nil_ds false ps vs 1 ([] ++ [0])) as (rest & Ec). rewrite Ec. reflexivity.
+Qed.
 End Pool.
 Print Assumptions find_pool_sync.
 Print Assumptions find_pool_first.
